@@ -18,6 +18,10 @@ class Doc:
         self.a = a
         self.b = b
 
+    def mir_field(self, i):
+        # DocBuilder(allocator, doc): field 0 is the arena
+        return Opaque('arena', ()) if i == 0 else self
+
     def __repr__(self):
         if self.k in ('nil', 'hardline'):
             return self.k
